@@ -59,6 +59,8 @@ pub(crate) struct ConnectionState {
 
 impl ConnectionState {
     fn terminate(&mut self, reason: ConnectionError) {
+        #[cfg(compio_verif)]
+        self.verif_snap(crate::verif::TERMINATE_BEGIN, 0, 0);
         self.error = Some(reason);
         self.connected = false;
 
@@ -77,6 +79,8 @@ impl ConnectionState {
         wake_all_streams(&mut self.writable);
         wake_all_streams(&mut self.readable);
         wake_all_streams(&mut self.stopped);
+        #[cfg(compio_verif)]
+        self.verif_snap(crate::verif::TERMINATE_END, 0, 0);
     }
 
     fn close(&mut self, error_code: VarInt, reason: Bytes) {
@@ -101,6 +105,60 @@ impl ConnectionState {
 
     pub(crate) fn check_0rtt(&self) -> bool {
         self.conn.side().is_server() || self.conn.is_handshaking() || self.conn.accepted_0rtt()
+    }
+}
+
+#[cfg(compio_verif)]
+impl ConnectionState {
+    pub(crate) fn verif_snap(&self, kind: u32, a: u64, b: u64) {
+        if !crate::verif::recording() {
+            return;
+        }
+        let sizes = [
+            self.on_connected.len() as u32,
+            self.on_handshake_data.is_some() as u32,
+            self.datagram_received.len() as u32,
+            self.datagrams_unblocked.len() as u32,
+            self.stream_opened[0].len() as u32,
+            self.stream_opened[1].len() as u32,
+            self.stream_available[0].len() as u32,
+            self.stream_available[1].len() as u32,
+            self.writable.len() as u32,
+            self.readable.len() as u32,
+            self.stopped.len() as u32,
+            self.error.is_some() as u32,
+            self.connected as u32,
+        ];
+        crate::verif::emit(crate::verif::Event {
+            conn: self as *const Self as u64,
+            kind,
+            a,
+            b,
+            sizes,
+        });
+    }
+
+    fn verif_event(&self, event: &quinn_proto::Event) {
+        use quinn_proto::Event::*;
+
+        use crate::verif::*;
+        let (a, b) = match event {
+            HandshakeDataReady => (E_HANDSHAKE_DATA_READY, 0),
+            Connected => (
+                E_CONNECTED,
+                (self.conn.side().is_client() && !self.conn.accepted_0rtt()) as u64,
+            ),
+            ConnectionLost { .. } => (E_CONNECTION_LOST, 0),
+            Stream(StreamEvent::Readable { id }) => (E_READABLE, stream_id(*id)),
+            Stream(StreamEvent::Writable { id }) => (E_WRITABLE, stream_id(*id)),
+            Stream(StreamEvent::Finished { id }) => (E_FINISHED, stream_id(*id)),
+            Stream(StreamEvent::Stopped { id, .. }) => (E_STOPPED, stream_id(*id)),
+            Stream(StreamEvent::Available { dir }) => (E_AVAILABLE, *dir as u64),
+            Stream(StreamEvent::Opened { dir }) => (E_OPENED, *dir as u64),
+            DatagramReceived => (E_DATAGRAM_RECEIVED, 0),
+            DatagramsUnblocked => (E_DATAGRAMS_UNBLOCKED, 0),
+        };
+        self.verif_snap(EV_BEGIN, a, b);
     }
 }
 
@@ -245,6 +303,8 @@ impl ConnectionInner {
 
             while let Some(event) = state.conn.poll() {
                 use quinn_proto::Event::*;
+                #[cfg(compio_verif)]
+                state.verif_event(&event);
                 match event {
                     HandshakeDataReady => {
                         if let Some(waker) = state.on_handshake_data.take() {
@@ -279,6 +339,8 @@ impl ConnectionInner {
                     DatagramReceived => state.datagram_received.drain(..).for_each(Waker::wake),
                     DatagramsUnblocked => state.datagrams_unblocked.drain(..).for_each(Waker::wake),
                 }
+                #[cfg(compio_verif)]
+                state.verif_snap(crate::verif::EV_END, 0, 0);
             }
 
             if state.conn.is_drained() {
@@ -430,6 +492,8 @@ impl Connecting {
                 Some(waker) if waker.will_wake(cx.waker()) => {}
                 _ => state.on_handshake_data = Some(cx.waker().clone()),
             }
+            #[cfg(compio_verif)]
+            state.verif_snap(crate::verif::REG, crate::verif::T_ON_HANDSHAKE_DATA, 0);
 
             Poll::Pending
         })
@@ -511,6 +575,8 @@ impl Future for Connecting {
         if !state.on_connected.iter().any(|w| w.will_wake(cx.waker())) {
             state.on_connected.push_back(cx.waker().clone());
         }
+        #[cfg(compio_verif)]
+        state.verif_snap(crate::verif::REG, crate::verif::T_ON_CONNECTED, 0);
 
         Poll::Pending
     }
@@ -672,6 +738,8 @@ impl Connection {
             return Poll::Ready(Ok(bytes));
         }
         state.datagram_received.push_back(cx.waker().clone());
+        #[cfg(compio_verif)]
+        state.verif_snap(crate::verif::REG, crate::verif::T_DATAGRAM_RECEIVED, 0);
         Poll::Pending
     }
 
@@ -706,6 +774,8 @@ impl Connection {
                     state
                         .datagrams_unblocked
                         .push_back(cx.unwrap().waker().clone());
+                    #[cfg(compio_verif)]
+                    state.verif_snap(crate::verif::REG, crate::verif::T_DATAGRAMS_UNBLOCKED, 0);
                     Err(data)
                 }
             })?;
@@ -760,6 +830,8 @@ impl Connection {
         } else {
             if let Some(cx) = cx {
                 state.stream_available[dir as usize].push_back(cx.waker().clone());
+                #[cfg(compio_verif)]
+                state.verif_snap(crate::verif::REG, crate::verif::T_STREAM_AVAILABLE, dir as u64);
             }
             Poll::Pending
         }
@@ -836,6 +908,8 @@ impl Connection {
             Poll::Ready(Ok((stream, state.conn.is_handshaking())))
         } else {
             state.stream_opened[dir as usize].push_back(cx.waker().clone());
+            #[cfg(compio_verif)]
+            state.verif_snap(crate::verif::REG, crate::verif::T_STREAM_OPENED, dir as u64);
             Poll::Pending
         }
     }
@@ -882,6 +956,8 @@ impl Connection {
             if !state.on_connected.iter().any(|w| w.will_wake(cx.waker())) {
                 state.on_connected.push_back(cx.waker().clone());
             }
+            #[cfg(compio_verif)]
+            state.verif_snap(crate::verif::REG, crate::verif::T_ON_CONNECTED, 0);
 
             Poll::Pending
         })
